@@ -166,6 +166,8 @@ See also: fixed, rational
         print at specified display precision
         '''
         v = self._value
+        if Guarded.precision == 0 and Guarded.guard == 0:  # integer arithmetic: print like Fixed
+            return str(v)
         #
         #  gv trims off the digits we aren't going to display at all.
         #  normally that's the guard digits, but it could be more if display<precision
